@@ -35,6 +35,7 @@ extern "C" int h_c14() {
     dump_all(c, "pre", true);
     c.write("a.c3d");
     dump_all(c, "mid", true);
+    { ezc3d::c3d other; other.point("zz"); Param q("OTHER", "something else"); q.set(std::vector<std::string>() = {"abc", "d"}); other.parameter("ELSE", q); other.write("other.c3d"); }   // a different object is saved in between
     c.write("b.c3d");
     dump_all(c, "post", true);
     __vp_sym_reset();                       // the same symbolic inputs again: an equal object built independently
